@@ -325,10 +325,70 @@ def vk_cmd(scn, src, outdir, bounds, total, deadline, family, opts=(), workers=1
                                                 " ".join("-D" + o for o in opts), extra))
 
 
+# Programs a VK scenario may execute for real (vk/qmailenv.hpp exec table) minus those never started under the virtual kernel
+# (qmail-remote is always a stand-in there; splogger, tcp-env, predate, qbiff are not used by any scenario).
+VK_PROGRAMS = ("qmail-queue qmail-send qmail-clean qmail-local qmail-lspawn qmail-rspawn qmail-getpw qmail-smtpd qmail-qmtpd qmail-qmqpd "
+               "qmail-pop3d qmail-popup qmail-inject qmail-newu qmail-newmrh qmail-start forward condredirect bouncesaying preline except "
+               "qreceipt qmail-pw2u").split()
+PURE_IMPORTS = set("malloc free realloc calloc memcmp memcpy memmove memset strcmp strncmp strcpy strdup strlen strchr strrchr sigaddset sigemptyset "
+                   "__errno_location __h_errno_location __cxa_finalize __gmon_start__ _ITM_deregisterTMCloneTable _ITM_registerTMCloneTable "
+                   "__stack_chk_fail __libc_start_main abort".split())
+_import_guard_done = set()
+
+
+def vk_import_guard(src):
+    """Every libc entry point through which a simulated program could observe or change the world must be served by the shim:
+    an import that is neither interposed nor on the list of pure functions (say a new openat or getrandom) would silently escape
+    the model, so it is a harness error (plain builds only: sanitised builds import the sanitizer runtime)."""
+    if src in _import_guard_done or not src.endswith("src-plain"):
+        return
+    _import_guard_done.add(src)
+    shim = set(l.split()[-1].split("@")[0] for l in sh("nm -D --defined-only %s/libvk.so" % VKB).stdout.split("\n") if l.strip())
+    bad = []
+    for prog in VK_PROGRAMS:
+        path = os.path.join(src, prog)
+        if not os.path.exists(path):
+            continue
+        for l in sh("nm -D --undefined-only %s" % path).stdout.split("\n"):
+            if not l.strip():
+                continue
+            sym = l.split()[-1].split("@")[0]
+            if sym not in shim and sym not in PURE_IMPORTS:
+                bad.append("%s imports %s" % (prog, sym))
+    if bad:
+        sys.stderr.write("HARNESS-ERROR: libc imports that the virtual kernel does not serve (extend vk/shim.c or the pure list): %s\n" % "; ".join(bad))
+        sys.exit(2)
+
+
+def vk_conformance(tier="quick", deadline=1500):
+    """VK-vs-Linux differential conformance (vk/scn_conf.cpp, vk/confprog.c): every sequence of d operations over the 30-operation
+    alphabet (quick d=2, thorough d=3; d=4, 810000 sequences, was run once while building) and every sequence of d' operations over
+    the 9 FIFO/pipe operations (quick d'=4, thorough d'=6), executed by the same binary under the model and natively on the real
+    kernel; results, errno values, descriptor numbers and select() readiness after every step must agree.  Any disagreement (or
+    a run that was cut short) is a harness error: the model, not notqmail, is then wrong."""
+    vk_build()
+    rd = rundir("conformance")
+    outdir = os.path.join(rd, "vkout")
+    os.makedirs(outdir)
+    d, df = (2, 4) if tier == "quick" else (3, 6)
+    total = 0
+    for fam, opts in (("all-ops-depth-%d" % d, ["depth=%d" % d]), ("fifo-ops-depth-%d" % df, ["depth=%d" % df, "ops=16,17,18,5,25,6,26,19,20"])):
+        cmd = vk_cmd("conf", "/nonexistent", outdir, "0,0,0,0", 0, deadline, fam, opts, 16, "--qcap 1000000")
+        p = sh(cmd, check=False, timeout=deadline + 300)
+        out = p.stdout or ""
+        m = re.search(r"sequences=(\d+)", out)
+        if p.returncode != 0 or "FAIL " in out or "CAPPED" in out or not m:
+            sys.stderr.write("HARNESS-ERROR: the virtual kernel disagrees with Linux (or the run was cut short): %s\n%s\n" % (fam, out[-3000:]))
+            sys.exit(2)
+        total += int(m.group(1))
+    return total
+
+
 def vk_run(res, scn, src, rd, bounds, total, deadline, family, opts=(), workers=16):
     """Run one VK exploration; merges its STAT/SAMPLE/FAIL lines; copies a replay file to /verif/replays."""
     outdir = os.path.join(rd, "vkout")
     os.makedirs(outdir, exist_ok=True)
+    vk_import_guard(src)
     cmd = vk_cmd(scn, src, outdir, bounds, total, deadline, family, opts, workers)
     p = sh(cmd, check=False, timeout=deadline + 300)
     out = p.stdout or ""
